@@ -434,7 +434,8 @@ def run(ctx: core.Ctx):
         rule="every supported column type x values across its domain (integer boundaries of every width, booleans, empty / multi-byte / "
              "250-251-300-70000-byte strings, bytes, floats, dates and datetimes incl. year 1 and 9999 and microseconds, durations: "
              "zero, negative, >= 24 h, days, fractional): text and binary cell encoders vs Values.text_cell / bin_cell byte for byte; "
-             "the Coq reference decoders applied to the implementation's TIME bytes; rows with every NULL pattern for 0..4 columns "
+             "the Coq reference decoders applied to the implementation's TIME bytes; pairs of results sharing ONE list / tuple of bare "
+             "column names (first result of one kind, second of another) compared with fresh names and encoded in both protocols; rows with every NULL pattern for 0..4 columns "
              "and the bitmap boundaries 6/7/8/14/15/16/22/23/40 columns vs text_row / bin_row; inference by peeking on random "
              "shapes with duplicate bare names, sync and async sources; column definitions end to end. distinct = distinct cases",
         samples=[dict(type=cells[0][0].name, value=repr(cells[0][1]), text=repr(tm[0]), binary=repr(bm[0]))], distinct=len(distinct),
